@@ -68,6 +68,11 @@ def run(tier, replay):
         bads = V.tlc_prints(r.output, "BAD")
         lines = open(os.path.join(d, "trace.ndjson")).read().splitlines()
         for b in bads:
+            if b["what"] == "apply-changes":
+                # the granularity of the recorded changes is lungo's own business here; what the change stream must
+                # say about an update is C08's, judged there on the real events by replay (DescriptionsOK)
+                c.add("recorded_change_differences_not_judged")
+                continue
             e = json.loads(lines[b["l"] - 1])
             key = "%s:%s" % (b["what"], ops_of_update(e["upd"]))
             got = e["res"]
